@@ -18,7 +18,7 @@ TRUSTED = ["the simulator's rules stand for Thespian (incl. ChildActorExited on 
            "sender adjacency of the actors (who can send to whom) in the relay table is written by hand; forwarding targets, no_retry guards and PoisonMessage handlers are extracted from the AST"]
 ASSUMPTIONS = ["a single fault per race", "race() looks at the first reply only (actor_system.ask)"]
 
-KINDS = ["request-abort", "request-connection", "runner-raises", "params-raise", "driver-store", "rc-store", "prep-task", "kill-worker", "cancel", "none"]
+KINDS = ["request-abort", "request-connection", "runner-raises", "params-raise", "driver-store", "rc-store", "prep-task", "kill-worker", "cancel", "none", "outage"]
 
 
 def gen(ctx):
@@ -56,9 +56,16 @@ def gen(ctx):
             timed.append([rng.choice([0.125, 0.3, 0.6, 1.1, 2.0, 4.0]), "kill-worker", rng.randrange(nworkers) if rng.random() < 0.9 else 3])
         elif kind == "cancel":
             timed.append([rng.choice([0.0, 0.25, 0.5, 1.0, 2.0, 4.0]), "cancel", None])
+        elif kind == "outage":
+            # the cluster becomes unreachable and stays so: every later request (and every call of the driver's own client) fails
+            sc["outage_from"] = rng.choice([0.0, 1.125, 1.5, 2.25, 3.0, 5.0])
+        # configuration that changes what the actors do on start-up and shut-down
+        sc["api_keys"] = rng.random() < 0.4
         sc["faults"] = {repr(k): v for k, v in faults.items()}
         sc["timed"] = timed
-        yield {"scenario": sc, "seed": rng.randrange(1 << 30), "kind": kind}
+        # how long the system keeps running after the caller of race() got its first reply (in reality until its ActorExitRequest
+        # takes effect): a moment, a few seconds, or until nothing is left to do
+        yield {"scenario": sc, "seed": rng.randrange(1 << 30), "kind": kind, "grace": rng.choice([0.5, 3.0, 3.0, None, None])}
 
 
 def run(ctx, case):
@@ -77,9 +84,15 @@ def run(ctx, case):
             if s.ss.inbox and grace["t"] is None:
                 grace["t"] = s.clock
             # after the first reply give the system a little more virtual time (a later Success must not change the verdict)
-            return grace["t"] is not None and (s.clock > grace["t"] + 3.0 or not s.channels and not s.executors and s.clock > grace["t"])
+            if grace["t"] is None:
+                return False
+            g = case.get("grace", 3.0)
+            if type(s.ss.inbox[0]).__name__ == "Success" and not s.channels and not s.executors and s.clock > grace["t"]:
+                return True  # the race is over and torn down
+            # (workers and the driver re-arm their wake-ups for ever, so "nothing left to do" is a time bound: the whole race's budget)
+            return s.clock > grace["t"] + (c01.budget(sc) if g is None else g)
 
-        res = sim.run(max_events=80000, max_vtime=c01.budget(sc) + 30, until=until)
+        res = sim.run(max_events=80000, max_vtime=c01.budget(sc) * (2 if case.get("grace", 3.0) is None else 1) + 30, until=until)
         kind = case["kind"]
         replies = [type(m).__name__ for m in sim.ss.inbox]
         # messages handled by the real BenchmarkActor, in order
